@@ -1350,14 +1350,24 @@ func checkCase(t fataler, c Case, base *content) {
 	if ref.openTx != 0 || ref.inUse != 0 {
 		t.Fatalf("C05 violated: after the fault-free operation %d transaction(s) open, %d connection(s) checked out\n  case: %s\n  driver calls:\n%s", ref.openTx, ref.inUse, desc, eventLog(ref.events))
 	}
-	if ref.dump == ref.pre && op.Conflict == "nothing" {
-		// every record met ON CONFLICT DO NOTHING: nothing to apply, nothing to check
-		evid.Excluded("vacuous-on-conflict-do-nothing")
-		return
-	}
 	if ref.dump == ref.pre {
+		// The fault-free run changed nothing. Sessions derived before the
+		// operation are to blame only if the same operation without them does
+		// change the database; otherwise the operation is a no-op by itself.
 		if len(op.Pre) > 0 {
-			t.Fatalf("C05 violated: the fault-free operation reported success but changed nothing, after sessions %v were derived from the handle (the same operation without them applies)\n  case: %s\n  driver calls:\n%s", op.Pre, desc, eventLog(ref.events))
+			plain := op
+			plain.Pre = nil
+			if alone := runOnce(base, plain, fault{}); alone.err == nil && alone.dumpErr == nil && alone.dump != alone.pre {
+				t.Fatalf("C05 violated: the fault-free operation reported success but changed nothing after sessions %v were derived from the handle; without them the same operation applies\n  case: %s\n  driver calls:\n%s", op.Pre, desc, eventLog(ref.events))
+			}
+		}
+		if op.Conflict != "" {
+			// ON CONFLICT DO NOTHING skipped every record, or the upsert rewrote
+			// an existing row with the values it already has (a map or a column
+			// list upsert does not touch updated_at): nothing to apply, nothing
+			// to check
+			evid.Excluded("vacuous-upsert:" + op.Conflict)
+			return
 		}
 		t.Fatalf("harness: vacuous case, the fault-free operation changed nothing\n  case: %s", desc)
 	}
